@@ -140,7 +140,9 @@ pub struct PoolImpl {
     /// Keeps track of which slots are finalized.
     finality_tracker: FinalityTracker,
     /// Keeps track of safe-to-notar blocks waiting for a parent certificate.
-    s2n_waiting_parent_cert: BTreeMap<BlockId, BlockId>,
+    ///
+    /// Maps the parent to all blocks waiting for its certificate.
+    s2n_waiting_parent_cert: BTreeMap<BlockId, Vec<BlockId>>,
 
     /// Information about all active validators.
     epoch_info: Arc<ValidatorEpochInfo>,
@@ -239,17 +241,22 @@ impl PoolImpl {
         self.send_votor_event(event).await;
     }
 
-    /// Tells the block waiting for a certificate of its parent `parent_id`, if any,
-    /// that the parent is now certified. This may make the child safe-to-notar.
+    /// Tells every block waiting for a certificate of its parent `parent_id`
+    /// that the parent is now certified. This may make these children safe-to-notar.
     async fn notify_children_parent_certified(&mut self, parent_id: &BlockId) {
-        if let Some((child_slot, child_hash)) = self.s2n_waiting_parent_cert.remove(parent_id)
-            && let Some(output) = self
+        let children = self
+            .s2n_waiting_parent_cert
+            .remove(parent_id)
+            .unwrap_or_default();
+        for (child_slot, child_hash) in children {
+            if let Some(output) = self
                 .slot_state(child_slot)
                 .notify_parent_certified(child_hash)
-        {
-            match output {
-                Either::Left(event) => self.send_votor_event(event).await,
-                Either::Right((slot, hash)) => self.send_repair((slot, hash)).await,
+            {
+                match output {
+                    Either::Left(event) => self.send_votor_event(event).await,
+                    Either::Right((slot, hash)) => self.send_repair((slot, hash)).await,
+                }
             }
         }
     }
@@ -546,7 +553,11 @@ impl Pool for PoolImpl {
             }
             return;
         }
-        self.s2n_waiting_parent_cert.insert(parent_id, block_id);
+        // several blocks (in different slots, or equivocating ones) can wait for the same parent
+        self.s2n_waiting_parent_cert
+            .entry(parent_id)
+            .or_default()
+            .push(block_id);
     }
 
     /// Triggers a recovery from a standstill.
